@@ -51,7 +51,7 @@ MODEL_HASHES = {
     'ts:__Str$toInt': '36daf030d3b770de',
     'ts:__Vec$capacity': 'ebe808c90c82c4c6',
     'ts:__Vec$empty': 'f0081453f7e92a83',
-    'ts:__Vec$eq': 'e63444707e1a27ae',
+    'ts:__Vec$eq': '2ea11bd81d36f6d7',
     'ts:__Vec$get': '8e84cceb802cd787',
     'ts:__Vec$length': 'f6d7cdf044ebd8f1',
     'ts:__Vec$of': '646552811aabd776',
